@@ -25,7 +25,7 @@ def main():
             print("patch does not apply:", a.stdout.decode()[-300:]); return 2
         for pid in pids:
             t0 = time.time()
-            env = dict(os.environ, VERIF_REPO=wt, VERIF_EVIDENCE_DIR="/dev/shm/ev_seed_%s" % name)
+            env = dict(os.environ, VERIF_REPO=wt, VERIF_EVIDENCE_DIR="/dev/shm/ev_seed_%s" % name, VERIF_OUT_DIR="/dev/shm/out_seed_%s" % name)
             r = sh("cd /verif && ./check %s --tier %s" % (pid, tier), env=env)
             out = r.stdout.decode()
             viol = [l for l in out.splitlines() if l.startswith("VIOLATION")]
@@ -37,7 +37,7 @@ def main():
                 print(out[-1500:])
     finally:
         sh("git -C /repo worktree remove --force %s" % wt)
-        sh("rm -rf /dev/shm/ev_seed_%s" % name)
+        sh("rm -rf /dev/shm/ev_seed_%s /dev/shm/out_seed_%s" % (name, name))
     p = os.path.join(d, "runs.json")
     old = json.load(open(p)) if os.path.exists(p) else {}
     old.update(res)
